@@ -37,192 +37,237 @@ func symIP16(name string) net.IP          { return net.IP(vr.Bytes(name, 16)) }
 // maskMode: 0 = masked variant chosen by a symbolic boolean (a fork), 1 = always masked, 2 = never
 var maskMode = 0
 
+// The arguments handed to the last buildField call, as big-endian bytes, for the reference
+// (specification) writers of C02/C03/C04: value, mask (nil if none), whether the masked
+// constructor form was used, the kind, and for registers the index and bit range.
+var (
+	argV, argM []byte
+	argMasked  bool
+	argKind    int
+	argRegIdx  int
+	argRng     []int
+)
+
+// which kinds have a masked constructor form
+var fieldMaskable = []bool{
+	false, true, true, false, true, false, false, true, true, true, true, true, false, false, false, true, false,
+	false, false, false, true, false, true, true, false, false, false, false, false, false, false, false, false,
+	true, true, true, false, true, true, false, true, true, true, true,
+}
+
+func beBytes(v uint64, n int) []byte {
+	b := make([]byte, n)
+	for i := 0; i < n; i++ {
+		b[n-1-i] = byte(v >> (8 * uint(i)))
+	}
+	return b
+}
+func av8() uint8   { v := vr.U8("v"); argV = beBytes(uint64(v), 1); return v }
+func av16() uint16 { v := vr.U16("v"); argV = beBytes(uint64(v), 2); return v }
+func av32() uint32 { v := vr.U32("v"); argV = beBytes(uint64(v), 4); return v }
+func av64() uint64 { v := vr.U64("v"); argV = beBytes(v, 8); return v }
+func am16() uint16 { v := vr.U16("m"); argM = beBytes(uint64(v), 2); return v }
+func am32() uint32 { v := vr.U32("m"); argM = beBytes(uint64(v), 4); return v }
+func am64() uint64 { v := vr.U64("m"); argM = beBytes(v, 8); return v }
+func avBytes(n int) []byte {
+	argV = vr.Bytes("v", n)
+	return append(make([]byte, 0, n), argV...)
+}
+func amBytes(n int) []byte {
+	argM = vr.Bytes("m", n)
+	return append(make([]byte, 0, n), argM...)
+}
+
 func buildField(kind int) *MatchField {
 	vr.Note("field", fieldKindNames[kind])
 	masked := maskMode == 1
 	if maskMode == 0 {
 		masked = vr.Bool("masked")
 	}
+	argV, argM, argMasked, argKind, argRegIdx, argRng = nil, nil, masked && fieldMaskable[kind], kind, 3, nil
 	switch kind {
 	case 0:
-		return NewInPortField(vr.U32("v"))
+		return NewInPortField(av32())
 	case 1:
 		if masked {
-			m := symMAC("m")
-			return NewEthDstField(symMAC("v"), &m)
+			m := net.HardwareAddr(amBytes(6))
+			return NewEthDstField(net.HardwareAddr(avBytes(6)), &m)
 		}
-		return NewEthDstField(symMAC("v"), nil)
+		return NewEthDstField(net.HardwareAddr(avBytes(6)), nil)
 	case 2:
 		if masked {
-			m := symMAC("m")
-			return NewEthSrcField(symMAC("v"), &m)
+			m := net.HardwareAddr(amBytes(6))
+			return NewEthSrcField(net.HardwareAddr(avBytes(6)), &m)
 		}
-		return NewEthSrcField(symMAC("v"), nil)
+		return NewEthSrcField(net.HardwareAddr(avBytes(6)), nil)
 	case 3:
-		return NewEthTypeField(vr.U16("v"))
+		return NewEthTypeField(av16())
 	case 4:
 		if masked {
-			m := vr.U16("m")
-			return NewVlanIdField(vr.U16("v"), &m)
+			m := am16()
+			return NewVlanIdField(av16(), &m)
 		}
-		return NewVlanIdField(vr.U16("v"), nil)
+		return NewVlanIdField(av16(), nil)
 	case 5:
-		return NewMplsLabelField(vr.U32("v"))
+		return NewMplsLabelField(av32())
 	case 6:
-		return NewMplsBosField(vr.U8("v"))
+		return NewMplsBosField(av8())
 	case 7:
 		if masked {
-			m := symIP4("m")
-			return NewIpv4SrcField(symIP4("v"), &m)
+			m := net.IP(amBytes(4))
+			return NewIpv4SrcField(net.IP(avBytes(4)), &m)
 		}
-		return NewIpv4SrcField(symIP4("v"), nil)
+		return NewIpv4SrcField(net.IP(avBytes(4)), nil)
 	case 8:
 		if masked {
-			m := symIP4("m")
-			return NewIpv4DstField(symIP4("v"), &m)
+			m := net.IP(amBytes(4))
+			return NewIpv4DstField(net.IP(avBytes(4)), &m)
 		}
-		return NewIpv4DstField(symIP4("v"), nil)
+		return NewIpv4DstField(net.IP(avBytes(4)), nil)
 	case 9:
 		if masked {
-			m := symIP16("m")
-			return NewIpv6SrcField(symIP16("v"), &m)
+			m := net.IP(amBytes(16))
+			return NewIpv6SrcField(net.IP(avBytes(16)), &m)
 		}
-		return NewIpv6SrcField(symIP16("v"), nil)
+		return NewIpv6SrcField(net.IP(avBytes(16)), nil)
 	case 10:
 		if masked {
-			m := symIP16("m")
-			return NewIpv6DstField(symIP16("v"), &m)
+			m := net.IP(amBytes(16))
+			return NewIpv6DstField(net.IP(avBytes(16)), &m)
 		}
-		return NewIpv6DstField(symIP16("v"), nil)
+		return NewIpv6DstField(net.IP(avBytes(16)), nil)
 	case 11:
 		if masked {
-			m := vr.U32("m")
-			return NewIPV6FlowLabelField(vr.U32("v"), &m)
+			m := am32()
+			return NewIPV6FlowLabelField(av32(), &m)
 		}
-		return NewIPV6FlowLabelField(vr.U32("v"), nil)
+		return NewIPV6FlowLabelField(av32(), nil)
 	case 12:
-		return NewIpProtoField(vr.U8("v"))
+		return NewIpProtoField(av8())
 	case 13:
-		return NewIpDscpField(vr.U8("v"))
+		return NewIpDscpField(av8())
 	case 14:
-		return NewTunnelIdField(vr.U64("v"))
+		return NewTunnelIdField(av64())
 	case 15:
 		if masked {
-			m := vr.U64("m")
-			return NewMetadataField(vr.U64("v"), &m)
+			m := am64()
+			return NewMetadataField(av64(), &m)
 		}
-		return NewMetadataField(vr.U64("v"), nil)
+		return NewMetadataField(av64(), nil)
 	case 16:
-		return NewTcpSrcField(vr.U16("v"))
+		return NewTcpSrcField(av16())
 	case 17:
-		return NewTcpDstField(vr.U16("v"))
+		return NewTcpDstField(av16())
 	case 18:
-		return NewUdpSrcField(vr.U16("v"))
+		return NewUdpSrcField(av16())
 	case 19:
-		return NewUdpDstField(vr.U16("v"))
+		return NewUdpDstField(av16())
 	case 20:
 		if masked {
-			m := vr.U16("m")
-			return NewTcpFlagsField(vr.U16("v"), &m)
+			m := am16()
+			return NewTcpFlagsField(av16(), &m)
 		}
-		return NewTcpFlagsField(vr.U16("v"), nil)
+		return NewTcpFlagsField(av16(), nil)
 	case 21:
-		return NewArpOperField(vr.U16("v"))
+		return NewArpOperField(av16())
 	case 22:
 		if masked {
-			m := symIP4("m")
-			return NewTunnelIpv4SrcField(symIP4("v"), &m)
+			m := net.IP(amBytes(4))
+			return NewTunnelIpv4SrcField(net.IP(avBytes(4)), &m)
 		}
-		return NewTunnelIpv4SrcField(symIP4("v"), nil)
+		return NewTunnelIpv4SrcField(net.IP(avBytes(4)), nil)
 	case 23:
 		if masked {
-			m := symIP4("m")
-			return NewTunnelIpv4DstField(symIP4("v"), &m)
+			m := net.IP(amBytes(4))
+			return NewTunnelIpv4DstField(net.IP(avBytes(4)), &m)
 		}
-		return NewTunnelIpv4DstField(symIP4("v"), nil)
+		return NewTunnelIpv4DstField(net.IP(avBytes(4)), nil)
 	case 24:
-		return NewSctpDstField(vr.U16("v"))
+		return NewSctpDstField(av16())
 	case 25:
-		return NewSctpSrcField(vr.U16("v"))
+		return NewSctpSrcField(av16())
 	case 26:
-		return NewArpThaField(symMAC("v"))
+		return NewArpThaField(avBytes(6))
 	case 27:
-		return NewArpShaField(symMAC("v"))
+		return NewArpShaField(avBytes(6))
 	case 28:
-		return NewArpTpaField(symIP4("v"))
+		return NewArpTpaField(net.IP(avBytes(4)))
 	case 29:
-		return NewArpSpaField(symIP4("v"))
+		return NewArpSpaField(net.IP(avBytes(4)))
 	case 30:
-		return NewActsetOutputField(vr.U32("v"))
+		return NewActsetOutputField(av32())
 	case 31:
-		return NewIcmpCodeField(vr.U8("v"))
+		return NewIcmpCodeField(av8())
 	case 32:
-		return NewIcmpTypeField(vr.U8("v"))
+		return NewIcmpTypeField(av8())
 	case 33:
 		idx := 3
 		if vr.Thorough() {
 			idx = vr.IntRange("reg", 0, 15)
 		}
+		argRegIdx = idx
 		if masked && maskMode == 1 {
-			return NewRegMatchField(idx, vr.U32("v"), NewNXRange(4, 19))
+			argRng = []int{4, 19}
+			return NewRegMatchField(idx, av32(), NewNXRange(4, 19))
 		}
 		if masked {
 			first := vr.IntRange("first", 0, 31)
 			last := vr.IntRange("last", first, 31)
-			return NewRegMatchField(idx, vr.U32("v"), NewNXRange(first, last))
+			argRng = []int{first, last}
+			return NewRegMatchField(idx, av32(), NewNXRange(first, last))
 		}
-		return NewRegMatchField(idx, vr.U32("v"), nil)
+		return NewRegMatchField(idx, av32(), nil)
 	case 34:
 		n := 4
 		if maskMode == 0 {
 			n = vr.IntRange("tmlen", 1, 5)
 		}
 		if masked {
-			return NewTunMetadataField(2, vr.Bytes("v", n), vr.Bytes("m", n))
+			return NewTunMetadataField(2, avBytes(n), amBytes(n))
 		}
-		return NewTunMetadataField(2, vr.Bytes("v", n), nil)
+		return NewTunMetadataField(2, avBytes(n), nil)
 	case 35:
 		s := NewCTStates()
-		s.data, s.mask = vr.U32("v"), vr.U32("m")
+		s.data, s.mask = av32(), am32()
 		return NewCTStateMatchField(s)
 	case 36:
-		return NewCTZoneMatchField(vr.U16("v"))
+		return NewCTZoneMatchField(av16())
 	case 37:
 		if masked {
-			m := vr.U32("m")
-			return NewCTMarkMatchField(vr.U32("v"), &m)
+			m := am32()
+			return NewCTMarkMatchField(av32(), &m)
 		}
-		return NewCTMarkMatchField(vr.U32("v"), nil)
+		return NewCTMarkMatchField(av32(), nil)
 	case 38:
 		var l, m [16]byte
-		copy(l[:], vr.Bytes("v", 16))
+		copy(l[:], avBytes(16))
 		if masked {
-			copy(m[:], vr.Bytes("m", 16))
+			copy(m[:], amBytes(16))
 			return NewCTLabelMatchField(l, &m)
 		}
 		return NewCTLabelMatchField(l, nil)
 	case 39:
-		return NewConjIDMatchField(vr.U32("v"))
+		return NewConjIDMatchField(av32())
 	case 40:
 		if masked {
-			return NewNxARPShaMatchField(symMAC("v"), symMAC("m"))
+			return NewNxARPShaMatchField(avBytes(6), amBytes(6))
 		}
-		return NewNxARPShaMatchField(symMAC("v"), nil)
+		return NewNxARPShaMatchField(avBytes(6), nil)
 	case 41:
 		if masked {
-			return NewNxARPThaMatchField(symMAC("v"), symMAC("m"))
+			return NewNxARPThaMatchField(avBytes(6), amBytes(6))
 		}
-		return NewNxARPThaMatchField(symMAC("v"), nil)
+		return NewNxARPThaMatchField(avBytes(6), nil)
 	case 42:
 		if masked {
-			return NewNxARPSpaMatchField(symIP4("v"), symIP4("m"))
+			return NewNxARPSpaMatchField(net.IP(avBytes(4)), net.IP(amBytes(4)))
 		}
-		return NewNxARPSpaMatchField(symIP4("v"), nil)
+		return NewNxARPSpaMatchField(net.IP(avBytes(4)), nil)
 	case 43:
 		if masked {
-			return NewNxARPTpaMatchField(symIP4("v"), symIP4("m"))
+			return NewNxARPTpaMatchField(net.IP(avBytes(4)), net.IP(amBytes(4)))
 		}
-		return NewNxARPTpaMatchField(symIP4("v"), nil)
+		return NewNxARPTpaMatchField(net.IP(avBytes(4)), nil)
 	}
 	panic("buildField: bad kind")
 }
@@ -275,6 +320,7 @@ func buildLearnSpec() *NXLearnSpec {
 	kind := vr.Choice("spec", 5)
 	nbits := vr.U16("nbits")
 	vr.Assume(nbits <= 1023)
+	vr.Assume(nbits >= 1) // a zero-bit match-from-field spec has header 0x0000, which is the end-of-specs padding
 	src := &NXLearnSpecField{regHeader(false), vr.U16("srcofs")}
 	dst := &NXLearnSpecField{regHeader(false), vr.U16("dstofs")}
 	switch kind {
